@@ -637,6 +637,12 @@ class SamplingMethod(DirectMethod):
         #                    t is physical time, but starting at 0 at the beginning of the interval
         coeff = stage._method.poly_coeff[k * self.M + l]
 
+        # The spline algebra below holds one polynomial per quantity: every ingredient must be scalar
+        nonscalar = [s for s in stage.states if s.numel()>1 and ca.depends_on(c, s)]
+        nonscalar += [s for s,e in stage._inf_der.items() if s.numel()>1 and ca.depends_on(c, s)]
+        nonscalar += [s for s,e in stage._inf_inert.items() if s.numel()>1 and ca.depends_on(c, s)]
+        if MX(c).numel()!=1 or len(nonscalar)>0:
+            raise Exception("grid='inf' constraints must be scalar and may only involve scalar states (and scalar inf_der/inf_inert terms); got " + str(c))
         # Represent polynomial as a BSpline object (https://gitlab.kuleuven.be/meco-software/rockit/-/blob/v0.1.28/rockit/splines/spline.py#L392)
         degree = coeff.shape[1]-1
         basis = BSplineBasis([0]*(degree+1)+[1]*(degree+1),degree)
